@@ -2,7 +2,8 @@
 # tools/trymut.sh <seeded-or-mutant dir name> <check id> [count]  — run one check against one recorded change in /tmp/m1
 id=$1; chk=$2; cnt=${3:-}
 d=/verif/seeded/$id; [ -d "$d" ] || d=/verif/mutants/$id
-cd /tmp/m1 && git checkout -q -- . && patch -p1 -s < $d/patch.diff || exit 3
+[ -d /tmp/m1 ] || git -C /repo worktree add -q --detach /tmp/m1 HEAD   # scratch worktree, created on demand (remove it with: git -C /repo worktree remove --force /tmp/m1)
+cd /tmp/m1 && git checkout -q -- . && git checkout -q --detach "$(git -C /repo rev-parse HEAD)" && patch -p1 -s < $d/patch.diff || exit 3
 cd /verif
 args="--tier quick"; [ -n "$cnt" ] && args="--workers 8 --count $cnt"
 HGSIM_REPLAY_DIR=/tmp/rp_try HGSIM_EVIDENCE_DIR=/tmp/ev_x HGSIM_SRC=/tmp/m1/src ./check $chk $args | tail -3
